@@ -21,6 +21,13 @@ class _Nil(object):
 NIL = _Nil()
 
 
+class Sparse(list):
+    """A list whose items carry explicit wire indexes (HttpRpc a[i].x notation): [(index, value), ...];
+    every other family sees the values in index order."""
+    def values(self):
+        return [v for _, v in sorted(self, key=lambda p: p[0])]
+
+
 class Raw(object):
     def __init__(self, text): self.text = text
     def __repr__(self): return 'Raw(%r)' % self.text
@@ -88,7 +95,7 @@ def xml_member(gen, name, t, v, ns, pref):
         # items are named after the member type; the name Spyne chose is read off the array class
         (iname, _icls), = gen.cls(t)._type_info.items()
         ins = it.get('ns', gen.tns) if it['k'] == 'obj' else ns
-        inner = ''.join(xml_member(gen, iname, dict(it, max=1), x, ins, pref) for x in v)
+        inner = ''.join(xml_member(gen, iname, dict(it, max=1), x, ins, pref) for x in (v.values() if isinstance(v, Sparse) else v))
         return '<%s>%s</%s>' % (q, inner, q)
     raise ValueError(t)
 
@@ -162,7 +169,7 @@ def dict_value(t, v, fam):
                 out[n] = dict_value(ft, x, fam)
         return out
     if k == 'arr':
-        return [dict_value(dict(t['of'], max=1), x, fam) for x in v]
+        return [dict_value(dict(t['of'], max=1), x, fam) for x in (v.values() if isinstance(v, Sparse) else v)]
     raise ValueError(t)
 
 
@@ -197,7 +204,7 @@ def flat_pairs(prefix, t, v, out):
             flat_pairs('%s.%s' % (prefix, n), ft, v.get(n), out)
     elif k == 'arr':
         it = t['of']
-        for i, x in enumerate(v):
+        for i, x in (list(v) if isinstance(v, Sparse) else enumerate(v)):
             if it['k'] == 'obj':
                 flat_pairs('%s[%d]' % (prefix, i), it, x, out)
             else:
